@@ -8,7 +8,7 @@ oracle:          exhaustive on the real code against Go's time package (all days
                  x the extreme and one random century split)
 """
 import subprocess, os
-from core import Corr, Fail, chunked_list, sh
+from core import Corr, Fail, chunked_list, sh, REPO
 
 PROP_FILES = ["Prop_C12"]
 RULE = ("numeric: every day number 1..72684 (exhaustive); text: day numbers sampled 1/N plus all month/year/leap "
@@ -26,7 +26,11 @@ def _run(ctx):
         return _cache["out"]
     vh = ctx.harness()
     every = 4 if ctx.thorough else 40
-    p = subprocess.run([vh, "c12", "-seed", str(ctx.seed), "-text-every", str(every)],
+    import os, shutil
+    ex = os.path.join(ctx.work, "ex")
+    if not os.path.isdir(ex):
+        shutil.copytree(os.path.join(REPO, "examples"), ex)
+    p = subprocess.run([vh, "c12", "-seed", str(ctx.seed), "-text-every", str(every), "-work", ex],
                        stdout=subprocess.PIPE, stderr=subprocess.PIPE, text=True, timeout=600)
     _cache["out"] = (p.returncode, p.stdout, p.stderr)
     return _cache["out"]
@@ -122,6 +126,8 @@ def oracle(ctx, search):
     for line in out.split("\n"):
         if line.startswith("ORACLE "):
             fails.append(Fail(key=line[7:60], what=line[7:]))
+        if line.startswith("RUNDAYS "):
+            ctx.extra["days_of_the_run_crossing_2000_checked_for_day_of_year_and_year_length"] = int(line.split()[1])
         if line.startswith("CONFIGURED "):
             ctx.extra["conversions_through_configured_converters_interleaved"] = int(line.split()[1])
     if "conversions_through_configured_converters_interleaved" not in ctx.extra:
